@@ -94,6 +94,10 @@ class Reporter:
                       f" [{f['count']} explored cases]")
             else:
                 violations.append(f)
+        d = os.path.join(VERIF, 'replays', self.prop)
+        if os.path.isdir(d):
+            for old in os.listdir(d):
+                os.remove(os.path.join(d, old))
         for f in violations:
             path = write_replay(self.prop, f)
             print(f"VIOLATION property={self.prop} replay={path}")
